@@ -64,7 +64,15 @@ func c02Run(c *c02Case, synth *rig.Synth, nextAction func() string, stats *c02St
 	}
 	pri.SetMem(m1)
 	alt.SetMem(m2)
-	pri.LoadRaw(c.Init)
+	if c.MemSeed&4 != 0 {
+		// (registers set through the exported fields only, on objects that have run the earlier cases)
+		if c.MemSeed&8 != 0 {
+			_ = pri.Inspect()
+		}
+		pri.SoftLoadRaw(c.Init)
+	} else {
+		pri.LoadRaw(c.Init)
+	}
 	alt.LoadRaw(c.Init)
 	m1.DoLog = true
 	if synth != nil {
@@ -153,6 +161,15 @@ func c02Run(c *c02Case, synth *rig.Synth, nextAction func() string, stats *c02St
 				return nil
 			}
 		case "step":
+			if c.MemSeed&8 != 0 {
+				// the calls a debugger makes between two steps (packed flags, disassembly of what lies at the program
+				// counter now, before the next instruction is even in place) change nothing
+				for _, cpu := range []rig.CPU{pri, alt} {
+					if msg := cpu.Inspect(); msg != "" {
+						return fmt.Errorf("action %d: %s: %s", k, cpu.Name(), msg)
+					}
+				}
+			}
 			pre := pri.Arch()
 			if synth != nil {
 				n0 := len(synth.Patches)
@@ -295,7 +312,7 @@ func c02GenRaw(d rig.Drawer, op0 byte) rig.Raw {
 func TestC02(t *testing.T) {
 	rig.Main(t, "C02", "rapid state machines over the pair (cpu65c816, cpualt) loaded from the same raw register file (E=0/1, any D/M/X, stale non-authoritative "+
 		"register copies 30% of the time) and the same sparse image; actions step (just-in-time edge-solving synthesis, all 256 opcodes), TriggerIRQ, NMI, Reset, fork (both continue on CPUs created with InitFrom; the CPUs left behind must keep their state); after every action "+
-		"Step() results, Cycles, AllCycles, architectural view, flags, E, Stopped, WDM, PPC/PRK, pending interrupt and memory must be equal; the WDM hook of both interpreters panics once (operand ending in binary 11), the caller restores the exported register fields and makes the step again.  Non-trivial = at least one step executed "+
+		"Step() results, Cycles, AllCycles, architectural view, flags, E, Stopped, WDM, PPC/PRK, pending interrupt and memory must be equal; the WDM hook of both interpreters panics once (operand ending in binary 11), the caller restores the exported register fields and makes the step again; every other case starts from registers set through the exported fields only (cpu65c816), and in a quarter of the cases Flags() and the disassemblers are called between the steps.  Non-trivial = at least one step executed "+
 		"on both without panic; distinct = hash(raw state, memory seed, patches, actions).",
 		func(r *rig.Run) {
 			ev := r.Ev
